@@ -587,6 +587,11 @@ func emitPathsAreasAndRelations(source ingest.FeatureSource, o *Options, s *enco
 			if n := atomic.AddUint64(&seen.Relations, 1); n%1000000 == 0 {
 				log.Printf("  %d relations", n)
 			}
+			for _, member := range feature.(*ingest.RelationFeature).Members {
+				if member.ID.Type < b6.FeatureTypeBegin || member.ID.Type >= b6.FeatureTypeEnd {
+					return fmt.Errorf("%s: can't encode member %s: not a point, path, area or relation", feature.FeatureID(), member.ID)
+				}
+			}
 			relations[g].FromFeature(feature.(*ingest.RelationFeature), s, nt)
 			relations[g].Relations = summary.RelationMembers.FillReferences(relations[g].Relations[0:0], feature.FeatureID(), nt)
 			eid := FeatureID{Namespace: nt.Encode(feature.(*ingest.RelationFeature).RelationID.Namespace), Type: b6.FeatureTypeRelation, Value: feature.(*ingest.RelationFeature).RelationID.Value}
